@@ -10,6 +10,7 @@ package c19
 
 import (
 	"fmt"
+	"os"
 	"strings"
 	"sync"
 
@@ -68,6 +69,9 @@ func runParallel(p *Parallel, col *Collector) [][]answer {
 	rounds := p.Rounds
 	if rounds < 1 {
 		rounds = 1
+	}
+	if os.Getenv("VERIF_REPLAY") != "" { // one case alone: a race deserves more tries
+		rounds *= 20
 	}
 	out := make([][]answer, len(p.Workers)+1)
 	start := make(chan struct{})
